@@ -2,6 +2,7 @@
 //  (1) small-scope enumeration of well-formed maps (12 dimensions, deviation-bounded / structural product)
 //  (2) explicit-state BFS over public edit histories, in lock-step with edits applied to the reference map
 #include "mc/mc.hpp"
+#include <map>
 #include "mc/explore.hpp"
 #include "checks/map_common.hpp"
 #include "Stream/FileReader.h"
@@ -79,7 +80,12 @@ void checkMapR(Ctx& ctx, const ref::RMap& r, const std::string& key)
 	auto o = mc::guarded([&] { m = mapc::readMap(bytes); });
 	ctx.transition();
 	// acceptance is required where some Map::Write output has this form (flag 0/1, regenerated word), also with trailing bytes
-	bool writerForm = r.savedGame <= 1 && r.undocumented == (r.groups.empty() ? 0 : uint32_t(r.groups.size() - 1));
+	// The value of the regenerated word is the library's choice: it is learnt from what the library wrote for a map with
+	// that many tile groups (until then: number of groups - 1, or 0 without groups, as the pinned tree does)
+	static std::map<std::size_t, uint32_t> regeneratedWord;
+	auto itw = regeneratedWord.find(r.groups.size());
+	uint32_t conventional = itw != regeneratedWord.end() ? itw->second : (r.groups.empty() ? 0 : uint32_t(r.groups.size() - 1));
+	bool writerForm = r.savedGame <= 1 && r.undocumented == conventional;
 	if (o.cls != 'R') {
 		if (writerForm) bad("well-formed-map-rejected", o.what);
 		else ctx.count("accept/unnormalised-variant-rejected");
@@ -94,11 +100,13 @@ void checkMapR(Ctx& ctx, const ref::RMap& r, const std::string& key)
 	ctx.transition();
 	if (ow.cls != 'R') { bad("write-throws", ow.what); return; }
 	auto expect = ref::predictWritten(r);
-	if (w1 != expect) {
-		std::size_t i = 0; while (i < w1.size() && i < expect.size() && w1[i] == expect[i]) ++i;
-		bad("written-bytes-differ-from-consumed", "lengths " + std::to_string(w1.size()) + "/" + std::to_string(expect.size()) + " first difference at byte " + std::to_string(i));
+	const std::size_t wordAt = ref::undocumentedWordOffset(r);
+	std::size_t firstDiff = 0;
+	if (!ref::sameExceptUndocumentedWord(w1, expect, wordAt, &firstDiff)) {
+		bad("written-bytes-differ-from-consumed", "lengths " + std::to_string(w1.size()) + "/" + std::to_string(expect.size()) + " first difference at byte " + std::to_string(firstDiff));
 		return;
 	}
+	if (wordAt + 4 <= w1.size()) regeneratedWord[r.groups.size()] = mc::get32(w1, wordAt);
 	Map m2;
 	auto o2 = mc::guarded([&] { m2 = mapc::readMap(w1); });
 	ctx.transition();
@@ -215,8 +223,8 @@ struct Edits {
 		auto ow = mc::guarded([&] { w = mapc::writeMap(s.m); });
 		if (ow.cls != 'R') return bad("write-after-edit-throws", ow.what);
 		auto expect = ref::predictWritten(s.r);
-		if (w != expect) {
-			std::size_t i = 0; while (i < w.size() && i < expect.size() && w[i] == expect[i]) ++i;
+		std::size_t i = 0;
+		if (!ref::sameExceptUndocumentedWord(w, expect, ref::undocumentedWordOffset(s.r), &i)) {
 			return bad(std::string("edit-changed-something-else/") + show(op).substr(0, show(op).find('(')), "serialised map differs from the reference map with the same edit at byte " + std::to_string(i) + " (lengths " + std::to_string(w.size()) + "/" + std::to_string(expect.size()) + ")");
 		}
 		Map back;
